@@ -360,6 +360,8 @@ def run(ck, tier):
     _infl.run(ck, F, 'C08')
     from . import mustpass as _mp
     _mp.run(ck, F, 'C08')
+    from . import accum as _acc2
+    _acc2.run2(ck, F, 'C08')
     from . import c08x
     c08x.run(ck, F)
     from . import c08y
@@ -367,6 +369,7 @@ def run(ck, tier):
     c08y.run_block_fields(ck, F)
     c08y.run_len_minus(ck, F)
     c08y.run_variant_boundaries(ck, F)
+    c08y.run_variant_children(ck, F)
     from . import accum as _acc
     _acc.run(ck, F, 'C08')
     run_census(ck, F)
